@@ -6,7 +6,7 @@ Require Import IP.Base.Bytes IP.DM.Value IP.Codec.Cid IP.Codec.Cbor IP.Link.Link
 Require Extraction.
 Require Import ExtrOcamlBasic.
 Extraction Language OCaml.
-Extraction "model.ml" run step store compute load_any load_h reifier_handle load_raw fill load_plus_raw verify
+Extraction "model.ml" run step store compute load_any load_h reifier_handle must_s must_l wfail_class load_raw fill load_plus_raw verify
   build_link link_binary link_proto multihash_bytes link_eqb skey lookup put
   default_registry raw_codec dagcbor_codec plaincbor_codec memstore_kind cidmem_kind honest_w
   sort_maps rfc_ltb bytes_ltb bytes_eqb f64_is_nan dm_eqb lenN.
